@@ -161,9 +161,23 @@ def run(ctx, col: Collector):
         if v is None:
             raise AnchorMissing('Reference._validate')
         for side in ('col1', 'col2'):
-            guard_obligation(ctx, col, 'C17-endpoint', v, f'mixed-tables-{side}',
-                             lambda lits, n, side=side: any(f'self.{side}' in norm(n) and ('.table' in norm(n)) for _ in [0])
-                             and any(l[0] in ('any', 'truthy', 'not', 'cmp', 'eq') for l in lits),
+            def mixed(lits, n, side=side):
+                # `any(c.table != t for c in self.colN)` or (canonical form) the same test inside a loop over self.colN
+                if '.table' not in norm(n):
+                    return False
+                if f'self.{side}' in norm(n):
+                    return True
+                from .common import enclosing_loops
+                from ..cond import copy_subst
+                sub = copy_subst([s for s in ast.walk(v.node) if isinstance(s, ast.Assign)])
+                for l in enclosing_loops(v.node, n):
+                    if isinstance(l, ast.For):
+                        it = norm(l.iter)
+                        it = sub.get(it, it)
+                        if it == f'self.{side}' or f'self.{side}' in it:
+                            return True
+                return False
+            guard_obligation(ctx, col, 'C17-endpoint', v, f'mixed-tables-{side}', mixed,
                              [EXC + 'DBMLError'], protect=is_normal_return, what=f'columns of {side} belong to different tables')
         # composite inline DBML
         ri = idx.func('pydbml.renderer.dbml.default.reference', 'render_inline_reference')
